@@ -42,7 +42,7 @@ ERR = {1: "the AT proxy's journal is not one the routing model allows",
        5: "caller-visible results differ between the proxy and the bare driver",
        6: "the routing table regenerated from the source does not have the modelled shape (cfg_ok)"}
 TAG = {"BEGIN": 1, "COMMIT": 2, "ROLLBACK": 3, "ISO": 4, "BIZ:EXEC": 10, "BIZ:QUERY": 11, "BIZ:PREPARE": 12, "BIZ:STMT_EXEC": 13,
-       "BIZ:STMT_QUERY": 14, "IMG": 20, "SP": 21, "UNDOP": 22, "UNDO": 23, "TC:BranchRegister": 30, "TC:BranchReport": 31,
+       "BIZ:STMT_QUERY": 14, "IMG": 20, "SP": 21, "UNDOP": 22, "UNDO": 23, "AUX": 24, "TC:BranchRegister": 30, "TC:BranchReport": 31,
        "TC:GlobalLockQuery": 32}
 CONN = {"": 0, "c1": 1, "c2": 2}
 
@@ -121,7 +121,7 @@ def run_programs(chk, programs):
 
 
 def sizes(tier):
-    return (120, 200, 40, 40, 5) if tier == "quick" else (6000, 9000, 2000, 2000, 100)
+    return (100, 180, 30, 30, 4) if tier == "quick" else (6000, 9000, 2000, 2000, 100)
 
 
 def run(chk, only=None):
